@@ -76,6 +76,7 @@ func (s *metricSchemaStore) GetSchema(id metric.ID) (schema *metric.Schema, err 
 	if err != nil {
 		return nil, err
 	}
+	verifGate("schemastore.loaded")
 	if schema != nil {
 		s.cache.Add(id, schema)
 	}
